@@ -78,6 +78,16 @@ class NotConstructible(Exception):
     pass
 
 
+r_keys_seen: set = set()
+
+
+class BadOperatorResult(Exception):
+    pass
+
+
+_PYOPS = {"+": lambda a, b: a + b, "-": lambda a, b: a - b, "*": lambda a, b: a * b, "/": lambda a, b: a / b, "//": lambda a, b: a // b, "%": lambda a, b: a % b}
+
+
 def build(tree):
     """Build the SymbolicDim (or int) through the public operator overloads."""
     k = tree[0]
@@ -94,18 +104,12 @@ def build(tree):
     if isinstance(a, int) and isinstance(b, int):
         raise NotConstructible()
     try:
-        if k == "+":
-            return a + b
-        if k == "-":
-            return a - b
-        if k == "*":
-            return a * b
-        if k == "/":
-            return a / b
-        if k == "//":
-            return a // b
-        if k == "%":
-            return a % b
+        if k in _PYOPS:
+            res = _PYOPS[k](a, b)
+            if not isinstance(res, (int, ir.SymbolicDim)) or isinstance(res, bool):
+                # an operator that answers with something that is not a dimension (None, NotImplemented, a float ...)
+                raise BadOperatorResult(f"{a!r} {k} {b!r} -> {res!r}")
+            return res
     except TypeError:
         # Python itself rejects the operand form (e.g. int // dim: no __rfloordiv__)
         raise NotConstructible() from None
@@ -180,6 +184,8 @@ def check_tree(tree, syms, domain, do_simplify):
         d = build(tree)
     except NotConstructible:
         return 0, 0, out, "not_constructible"
+    except BadOperatorResult as e:
+        return 0, 0, [("operator_returns_something_that_is_not_a_dimension", str(e)[:120])], "error"
     except ZeroDivisionError as e:
         # e.g. N % (N - N): the divisor is identically zero, the expression has no value under any binding
         used = sorted({s for s in syms if _uses(tree, s)})
@@ -499,8 +505,80 @@ def func_ref(text, n):
     return Fraction(eval(compile(tree, "<ref>", "eval"), {"__builtins__": {}}, env))  # noqa: S307 - fixed literal strings
 
 
+# ---------------------------------------------------------------------------
+# Shapes as containers of dimensions: histories of queries and axis assignments on ONE Shape object
+
+SH_DIMS = [("int", 6), ("sym", "N"), ("*", ("int", 2), ("sym", "N")), ("+", ("sym", "M"), ("int", 1)), ("//", ("sym", "K"), ("int", 2))]
+SH_ENV = {"N": 3, "M": 5, "K": 9}
+
+
+def _sh_ops(rank):
+    ops = [("free_symbols",), ("evaluate", ("N",)), ("evaluate", ("M", "K")), ("evaluate", ())]
+    for i in range(rank):
+        for d in range(len(SH_DIMS)):
+            ops.append(("set", i, d))
+    return ops
+
+
+def _sh_run(initial, history):
+    dims = [SH_DIMS[i] for i in initial]
+    shape = ir.Shape([build(t) for t in dims])
+    bad = []
+    for step, op in enumerate(history):
+        if op[0] == "free_symbols":
+            shape.free_symbols()
+        elif op[0] == "evaluate":
+            shape.evaluate({k: SH_ENV[k] for k in op[1]})
+        else:
+            shape[op[1]] = build(SH_DIMS[op[2]])
+            dims[op[1]] = SH_DIMS[op[2]]
+        # after every step the shape must describe its current dimensions
+        want_syms = set()
+        for t in dims:
+            want_syms |= {s for s in SH_ENV if _uses(t, s)}
+        want_vals = [int(ref_eval(t, SH_ENV)) for t in dims]
+        try:
+            got_syms = set(shape.free_symbols())
+            full = shape.evaluate(dict(SH_ENV))
+            got_vals = [d if isinstance(d, int) else d.value for d in full]
+            two = shape.evaluate({"N": SH_ENV["N"]}).evaluate({"M": SH_ENV["M"], "K": SH_ENV["K"]})
+            two_vals = [d if isinstance(d, int) else d.value for d in two]
+        except Exception as e:  # noqa: BLE001
+            bad.append(("shape_query_raises", f"step {step} {op}: {type(e).__name__}: {e}"[:140]))
+            break
+        if got_syms != want_syms:
+            bad.append(("shape_free_symbols_do_not_match_its_dimensions", f"step {step} {op}: got {sorted(got_syms)} want {sorted(want_syms)}"))
+            break
+        if got_vals != want_vals or two_vals != want_vals:
+            bad.append(("shape_evaluates_differently_from_its_dimensions", f"step {step} {op}: complete {got_vals} partial-then-rest {two_vals} want {want_vals}"))
+            break
+    return bad
+
+
+def _sh_work(task):
+    initial, depth = task
+    ops = _sh_ops(len(initial))
+    found = {}
+    n = 0
+    for h in itertools.product(ops, repeat=depth):
+        if not any(o[0] == "set" for o in h):
+            continue
+        n += 1
+        for clause, detail in _sh_run(initial, h):
+            found.setdefault(f"shape_history|{clause}", {"clause": clause, "detail": f"initial={[tree_key(SH_DIMS[i]) for i in initial]} history={list(h)} {detail}", "shape_history": [list(initial), [list(o) for o in h]]})
+    return n, found
+
+
 def main(tier):
     r = common.Run("C16", "exploration", tier)
+    sh_tasks = [((a, b), 3 if tier == "quick" else 4) for a in range(len(SH_DIMS)) for b in range(len(SH_DIMS))]
+    sh_res = common.pmap(_sh_work, sh_tasks, chunksize=1)
+    sh_runs = sum(a for a, _ in sh_res)
+    for _, f in sh_res:
+        for key, v in sorted(f.items()):
+            if not any(key == k for k in r_keys_seen):
+                r_keys_seen.add(key)
+                r.violation(key, f"{v['clause']}: {v['detail']}", {"engine": "E1", "shape_history": v["shape_history"], "oracle": v["clause"], "detail": v["detail"]})
     syms = ("N", "M")
     if tier == "quick":
         plans = [
@@ -611,7 +689,7 @@ def main(tier):
     for t in gen_trees(leaves1, 1, BIN, UN):
         try:
             d = build(t)
-        except NotConstructible:
+        except (NotConstructible, BadOperatorResult):  # the latter is reported by the tree family
             continue
         if isinstance(d, int):
             continue
@@ -642,7 +720,7 @@ def main(tier):
         "exhaustive": True,
         "trees": ntrees, "tree_status": status, "bindings_skipped_division_by_zero": skipped,
         "parser_token_strings": nstr, "parser_grammar_strings": ngr, "parser_max_tokens": parse_len,
-        "serde_round_trips": nser, "function_form_strings": len(FUNC_STRINGS),
+        "serde_round_trips": nser, "function_form_strings": len(FUNC_STRINGS), "shape_histories": sh_runs,
     })
     r.assumptions += ["operand forms Python itself rejects (int // dim, int % dim: no reflected method) are counted as not constructible",
                       "powers are compared only for small integer exponents (|e| <= 12)",
@@ -654,6 +732,10 @@ def replay(obj):
     def fix(x):
         return tuple(fix(y) for y in x) if isinstance(x, list) else x
 
+    if obj.get("shape_history"):
+        initial, hist = obj["shape_history"]
+        bad = _sh_run(tuple(initial), [tuple(tuple(x) if isinstance(x, list) else x for x in o) for o in hist])
+        return (not [b for b in bad if b[0] == obj["oracle"]]), bad
     inp = obj["input"]
     if isinstance(inp, str):
         for n in (1, 2, 3, 5):
